@@ -106,12 +106,43 @@ def c09(c):
                       'the connect handshake and close() are atomic here (their interleavings: C08/C11 checks)']
 
 
-CHECKS = {'C09': c09}
+def c43(c):
+    cfg = 'hist_quick.cfg' if c.tier == 'quick' else 'hist_thorough.cfg'
+    c._specdir('Connect')
+    r, binp = _par(lambda: c.tlc_exhaustive('Connect', 'ConnHistory', cfg, workers=2, timeout=1500, dump=True),
+                   lambda: c.go_build('connect'))
+    rows = c.dump_states(r)
+    c.log('TLC: %d rows enumerated (%s), clamp transcription = reference, bound and filter invariants hold' % (len(rows), cfg))
+    res = c.harness(binp, 'c43', {'protos': ['json', 'protobuf'], 'rows': rows}, timeout=1500)
+    c.absorb(res)
+    c.cov['traces_validated_against_impl'] = res['completed']
+    c.cov['evaluations'] = res['executed']
+    c.cov['distinct_nontrivial'] = res['nontrivial']
+    c.cov['exhaustive'] = True
+    c.cov['samples'] = res['samples']
+    c.cov['rule'] = ('every row of ConnHistory.tla (%s): history requests (stream length x limit incl. -1/0 x since none / offset 0..top+1 x epoch empty/same/foreign x reverse x '
+                     'HistoryMaxPublicationLimit) and presence / presence_stats rows (0..n subscribed connections of 1-2 users, asked again after one left), each executed over JSON and '
+                     'Protobuf through the client command path of a real node and compared with Node.History(effective filter) / Node.Presence / Node.PresenceStats on that node and with the '
+                     'row; non-trivial = history row that returns publications, an error or is clamped, presence row with at least one subscriber' % cfg)
+    c.assumptions += ['memory broker and memory presence manager, all publications retained (history size 32, no expiry during a row)',
+                      'application handlers answer with an empty reply (the library computes the result); custom results are passed through unchanged by construction',
+                      'reverse reads from beyond top+1 are compared with Node.History only (outside the reference, see MemBroker.tla)']
+
+
+CHECKS = {'C09': c09, 'C43': c43}
 
 _note9 = ('Bounds: exhaustive design check 2 commands (quick) / 3 (thorough) with arbitrarily delayed close goroutines, 1 async callback, 2 timer firings, 1 environment close; '
           'exhaustive replay: all sequences of <= 3 commands (alphabet of 56 symbols x id modes, 6 environment configurations) with <= 1 async callback; simulated replay: <= 7 commands, '
           '<= 2 async callbacks, <= 4 timer firings. Trusted: TLC, lib/tlaparse.py, harness projection/monitor code, harness TimerScheduler.')
+_note43 = ('Bounds: streams of 0..3 (quick) / 0..6 (thorough) publications, limits {-1,0,1,2,5} / {-1,0,1,2,3,5,7}, since none or offset 0..top+1 with 3 epochs, both directions, '
+           'HistoryMaxPublicationLimit {0,2} / {0,1,2,4}; presence with <= 3 / 4 subscribers. Exhaustive within the bounds. Trusted: TLC, lib/tlaparse.py, harness comparison code.')
 META = {
+    'C43': dict(level='model_checking',
+                text='ConnHistory.tla transcribes the limit clamp of handleHistory and the request checks of Node.history, states the property independently (entitled limit, bound, '
+                     'filter and order of the returned offsets, bad request for reverse since offset 0) and TLC checks it on every request of the bounded argument space; every row is then '
+                     'replayed through the client command path (history / presence / presence_stats commands on a real client, JSON and Protobuf) and the reply is compared with the row and '
+                     'with the node-level result for the effective filter computed on the same node.',
+                note=_note43, technique='TLA+ transcription + TLC exhaustive enumeration; function-table replay through the client command path vs node-level API'),
     'C09': dict(level='model_checking',
                 text='Connect.tla transcribes HandleCommand/dispatchCommand and every command handler (authenticated gate, unusable connections, the pong rule with the lastPing sign, '
                      'request-field chain, per-handler validation order, sync/async/error/disconnect callbacks, reply and disconnect writes, the multiplexed stale/ping/pong timer, '
